@@ -188,8 +188,20 @@ pub fn gen_c14(tier: &str, seed: u64, out: &str, mc: Option<&str>, release_exe: 
             let (idx, (spec, cspec)) = match job { Some(j) => j, None => break };
             let mut evs = vec![];
             for (pname, exe) in &profiles {
-                let res = run_child(exe, &spec, 1_500_000, 8);
-                let cres = cspec.as_ref().map(|c| run_child(exe, c, 1_500_000, 8));
+                // a busy machine is not a hang: a call that misses the deadline (or cannot be spawned) is run again,
+                // with a longer deadline, before its outcome is believed
+                let robust = |s: &Value| -> Value {
+                    let mut r = run_child(exe, s, 1_500_000, 10);
+                    let mut tries = 0;
+                    while (r["outcome"] == "timeout" || r["outcome"] == "spawnfail") && tries < 2 {
+                        std::thread::sleep(Duration::from_millis(200));
+                        r = run_child(exe, s, 1_500_000, 40);
+                        tries += 1;
+                    }
+                    r
+                };
+                let res = robust(&spec);
+                let cres = cspec.as_ref().map(|c| robust(c));
                 evs.push(event_of(&spec, pname, &res, cres.as_ref()));
             }
             results.lock().unwrap().push((idx, evs));
@@ -206,6 +218,10 @@ pub fn gen_c14(tier: &str, seed: u64, out: &str, mc: Option<&str>, release_exe: 
         }
     }
     t.finish();
+    if counts.keys().any(|k| k.ends_with(":spawnfail")) {
+        eprintln!("child processes could not be spawned: tool error, not a verdict");
+        std::process::exit(3);
+    }
     json!({"files": t.files, "events": t.events, "plan_lines": plan.len(), "profiles": profiles.iter().map(|p| p.0).collect::<Vec<_>>(),
            "outcomes": counts, "samples": [json!({"fn": "cell_to_children", "id": "0xfc00000000000001", "r": 30, "note": "one planned call per REPLAY line of MC_Total"})]})
 }
